@@ -36,6 +36,13 @@ def step (s : St) (ws : List String) : St × String :=
       ({ cfg := some c, lm },
        s!"cfg {name} size {lm.table.size} width {widthOf (tval lm.table 0)} shift {lm.shift} zero {zeroOf lm.shift}")
     | none => (s, "unknown-cfg")
+  | ["cfgnotab", name, shift] =>
+    -- an object made with `use_table = 0`: only the conversions (`logPost`, `expArg`, `zeroOf`) are modelled
+    match parseNat shift with
+    | some sh =>
+      let lm : LogMath := { table := #[], zero := zeroOf sh, shift := sh }
+      ({ cfg := some ⟨0, 0, sh, 0, 0, 0, 0, lm.zero, []⟩, lm }, s!"cfg {name} size 0 width 0 shift {sh} zero {zeroOf sh}")
+    | none => (s, "bad-op")
   | ["cfgdyn", name, shift, runs] =>
     -- a table dumped in this run for a base without a generated (kernel-checked) table:
     -- `runs` is `v:n,v:n,…`; zero and width are the model's
